@@ -44,19 +44,17 @@ ForceBackup call (content, type, mode, owner, modification time — or absent, i
 then), and every other entry of the base below its root as it was when the transaction began
 (directory timestamps erased, as in C01).
 
-The generic proof is in Lemmas/Force.lean: `tryRemoveBackup` drops the tracking entry and the old
-copy, after which the transaction invariant of C01 holds for the original view *re-based at `p`*
-(`Inv.del_rebase`); `tryBackup` and all later covered operations keep that invariant
-(`sat_tryBackup`, `history_keeps`), and `sat_rollback` restores from it.
+The generic proof is in Lemmas/Force.lean and Lemmas/ForceWalk.lean: `tryRemoveBackup` drops the
+tracking entry and the old copy — or, when the backup holds a directory at a path tracked as "did not
+exist", walks that directory, deleting files, entries and finally the directories, all at or below
+`p` (`Below`, `Inv.below`) — after which the transaction invariant of C01 holds for the original view
+*re-based at `p`* (`Inv.del_rebase`); `tryBackup` and all later covered operations keep that
+invariant (`sat_tryBackup`, `history_keeps`), and `sat_rollback` restores from it.  Nothing is assumed
+about the backup filesystem.
 
-`_partial`: besides the limits of C01 (no symlinks, absolute names, …) the theorem assumes, for a
-path `p` that did *not exist* when the transaction began, that the backup filesystem holds no
-*directory* at `p` at the moment of the call (`hbak`; the invariant does not describe what the backup
-holds at a path tracked as "did not exist", and a directory there sends `tryRemoveBackup` into its
-recursive walk, which is not covered; for a path that did exist nothing is assumed about the backup),
-and it covers one ForceBackup per
-history (a second one is covered when its path satisfies the same hypotheses w.r.t. the re-based
-view: `sat_forceBackup` is stated for any reference view).
+`_partial`: the limits of C01 (no symlinks, absolute names, `Covered` operations, …); one
+ForceBackup per history (a second one is covered when its path satisfies the same hypotheses w.r.t.
+the re-based view: `sat_forceBackup_full` is stated for any reference view).
 -/
 
 
@@ -108,9 +106,6 @@ theorem forceBackup_rebaselines_linkfree_partial (bk kk : Key) (hbk : PKey bk) (
     (hnow : ∀ mt, (runOps (osCfg bk kk) w ops₁).fs.get (bk ++ k) ≠ some (.dir mt))
     -- its parent directories predate the transaction;
     (hpar : k ≠ [] ∧ ∃ mt, w.fs.get (bk ++ k.dropLast) = some (.dir mt))
-    -- if `p` did not exist when the transaction began: the backup filesystem holds no directory at `p`;
-    (hbak : w.fs.get (bk ++ k) = none →
-      ∀ mt, (runOps (osCfg bk kk) w ops₁).fs.get (kk ++ k) ≠ some (.dir mt))
     -- the ForceBackup succeeds
     (hok : (Op.exec (osCfg bk kk) (.force name) (runOps (osCfg bk kk) w ops₁)).2 = .ok .unit)
     (hcov2 : CoveredHist (osCfg bk kk) (osSim bk kk hbk hkk hne1 hne2 hd1 hd2)
@@ -122,15 +117,11 @@ theorem forceBackup_rebaselines_linkfree_partial (bk kk : Key) (hbk : PKey bk) (
     ∀ j, j ≠ [] → j ≠ k →
       ((runTx (osCfg bk kk) w (ops₁ ++ .force name :: ops₂)).fs.get (bk ++ j)).map eraseMt =
         (w.fs.get (bk ++ j)).map eraseMt := by
-  have key := force_in_history_rollback (S := osSim bk kk hbk hkk hne1 hne2 hd1 hd2) hg hinfos hnf
+  have key := force_in_history_rollback_full (S := osSim bk kk hbk hkk hne1 hne2 hd1 hd2) hg hinfos hnf
     ops₁ ops₂ (name := name) hk hname hcov1
     (fun h => by obtain ⟨mt, hmt⟩ := osView_isDirAt_of h; exact horig mt hmt)
     (fun h => by obtain ⟨mt, hmt⟩ := osView_isDirAt_of h; exact hnow mt hmt)
     ⟨hpar.1, (by obtain ⟨mt, hmt⟩ := hpar.2; exact osView_isDirAt_mk (s := .base) hmt)⟩
-    (fun h0 h => by
-      obtain ⟨mt, hmt⟩ := osView_isDirAt_of h
-      have h0' : (w.fs.get (bk ++ k)).map eraseMt = none := h0
-      exact hbak (by simpa using h0') mt hmt)
     hok hcov2
   constructor
   · have := key k hpar.1
@@ -153,8 +144,6 @@ theorem forceBackup_rebaselines_after_faults_linkfree_partial (bk kk : Key) (hbk
     (horig : ∀ mt, w.fs.get (bk ++ k) ≠ some (.dir mt))
     (hnow : ∀ mt, (runOps (osCfg bk kk) w ops₁).fs.get (bk ++ k) ≠ some (.dir mt))
     (hpar : k ≠ [] ∧ ∃ mt, w.fs.get (bk ++ k.dropLast) = some (.dir mt))
-    (hbak : w.fs.get (bk ++ k) = none →
-      ∀ mt, (runOps (osCfg bk kk) w ops₁).fs.get (kk ++ k) ≠ some (.dir mt))
     (hcov2 : CoveredHist (osCfg bk kk) (osSim bk kk hbk hkk hne1 hne2 hd1 hd2)
       (Op.step (osCfg bk kk) (runOps (osCfg bk kk) w ops₁) (.force name)) ops₂) :
     let final := (rollback (osCfg bk kk)
@@ -170,15 +159,11 @@ theorem forceBackup_rebaselines_after_faults_linkfree_partial (bk kk : Key) (hbk
       runOps (osCfg bk kk) (forceBackup (osCfg bk kk) name (runOps (osCfg bk kk) w ops₁)).1 ops₂ := by
     rw [runOps_append, ← hstep]; rfl
   rw [hstep] at hcov2
-  obtain ⟨h1, h2, h3⟩ := force_then_rollback_after_faults (S := osSim bk kk hbk hkk hne1 hne2 hd1 hd2) hg hinfos
+  obtain ⟨h1, h2, h3⟩ := force_then_rollback_after_faults_full (S := osSim bk kk hbk hkk hne1 hne2 hd1 hd2) hg hinfos
     ops₁ ops₂ (name := name) hk hname hcov1
     (fun h => by obtain ⟨mt, hmt⟩ := osView_isDirAt_of h; exact horig mt hmt)
     (fun h => by obtain ⟨mt, hmt⟩ := osView_isDirAt_of h; exact hnow mt hmt)
     ⟨hpar.1, (by obtain ⟨mt, hmt⟩ := hpar.2; exact osView_isDirAt_mk (s := .base) hmt)⟩
-    (fun h0 h => by
-      obtain ⟨mt, hmt⟩ := osView_isDirAt_of h
-      have h0' : (w.fs.get (bk ++ k)).map eraseMt = none := h0
-      exact hbak (by simpa using h0') mt hmt)
     hcov2
   rw [← hrun] at h1 h2 h3
   refine ⟨h1, ?_, ?_⟩
@@ -187,6 +172,31 @@ theorem forceBackup_rebaselines_after_faults_linkfree_partial (bk kk : Key) (hbk
     · exact Or.inr (eraseMt_exact h hnow)
   · intro hok
     exact eraseMt_exact (h3 (hiff.mp hok)) hnow
+
+/-- T17.many  any number of (successful) ForceBackups in one history, also of the same path:
+after Rollback a path no ForceBackup worked on is as it was when the transaction began, and a forced
+path is exactly as it was at the moment of its *last* ForceBackup.  (`Op.CoveredF`: the covered
+operations of C01 plus successful ForceBackups of absolute names of non-directory paths whose parent
+directory predates the transaction; `forceKey name` is the path as a list of components.) -/
+theorem forceBackup_rebaselines_many_linkfree_partial (bk kk : Key) (hbk : PKey bk) (hkk : PKey kk)
+    (hne1 : bk ≠ []) (hne2 : kk ≠ []) (hd1 : ¬ bk <+: kk) (hd2 : ¬ kk <+: bk)
+    (w : World) (hg : OSGood bk kk w.fs) (hinfos : w.infos = []) (hnf : w.faults = [])
+    (ops : List Op)
+    (hcov : CoveredHistF (osCfg bk kk) (osSim bk kk hbk hkk hne1 hne2 hd1 hd2) (osView bk kk .base w.fs) w ops) :
+    (∀ j, j ≠ [] → (∀ name, Op.force name ∈ ops → forceKey name ≠ j) →
+      ((runTx (osCfg bk kk) w ops).fs.get (bk ++ j)).map eraseMt = (w.fs.get (bk ++ j)).map eraseMt) ∧
+    (∀ ops₁ name ops₂, ops = ops₁ ++ .force name :: ops₂ →
+      (∀ name', Op.force name' ∈ ops₂ → forceKey name' ≠ forceKey name) →
+      (runTx (osCfg bk kk) w ops).fs.get (bk ++ forceKey name) =
+        (runOps (osCfg bk kk) w ops₁).fs.get (bk ++ forceKey name)) := by
+  obtain ⟨h1, h2⟩ := forces_then_rollback (S := osSim bk kk hbk hkk hne1 hne2 hd1 hd2) hg hinfos hnf ops hcov
+  refine ⟨h1, ?_⟩
+  intro ops₁ name ops₂ he hlast
+  have hv := h2 ops₁ name ops₂ he hlast
+  subst he
+  have hc := (coveredHistF_append (cfg := osCfg bk kk) hcov).1
+  have hnow : ¬ (osView bk kk .base (runOps (osCfg bk kk) w ops₁).fs).isDirAt (forceKey name) := hc.2.2.1
+  exact eraseMt_exact hv (fun mt e => hnow (osView_isDirAt_mk (s := .base) e))
 
 /-! ### non-vacuity: the hypotheses hold of an ordinary disk and history -/
 
@@ -221,19 +231,63 @@ example :
     (∀ mt, w.fs.get ([['b']] ++ [['f']]) ≠ some (.dir mt)) ∧
     (∀ mt, (runOps cfg w ops₁).fs.get ([['b']] ++ [['f']]) ≠ some (.dir mt)) ∧
     ([['f']] ≠ [] ∧ ∃ mt, w.fs.get ([['b']] ++ [['f']].dropLast) = some (.dir mt)) ∧
-    (w.fs.get ([['b']] ++ [['f']]) = none →
-      ∀ mt, (runOps cfg w ops₁).fs.get ([['k']] ++ [['f']]) ≠ some (.dir mt)) ∧
     (Op.exec cfg (.force "/f".toList) (runOps cfg w ops₁)).2 = .ok .unit ∧
     CoveredHist cfg osSim_example (Op.step cfg (runOps cfg w ops₁) (.force "/f".toList)) ops₂ := by
-  refine ⟨osGood_example, rfl, rfl, (by decide), (by decide), ⟨?_, trivial⟩, ?_, ?_, ⟨(by decide), ⟨_, rfl⟩⟩, ?_, ?_,
+  refine ⟨osGood_example, rfl, rfl, (by decide), (by decide), ⟨?_, trivial⟩, ?_, ?_, ⟨(by decide), ⟨_, rfl⟩⟩, ?_,
     ⟨?_, ?_, ?_, trivial⟩⟩
   · show isAbs _ = true; decide
   · exact notDir_spec (by decide +kernel)
   · exact notDir_spec (by decide +kernel)
-  · exact fun _ => notDir_spec (by decide +kernel)
   · exact isOkUnit_eq (by decide +kernel)
   · show isAbs _ = true ∧ clean _ ≠ rootP; decide
   · show isAbs _ = true; decide
+  · show isAbs _ = true; decide
+
+def isDirB : Option Node → Bool
+  | some (.dir _) => true
+  | _ => false
+
+theorem isDirB_spec {x : Option Node} (h : isDirB x = true) : ∃ mt, x = some (.dir mt) := by
+  cases x with
+  | none => cases h
+  | some n => cases n <;> first | exact ⟨_, rfl⟩ | cases h
+
+/-- `Op.CoveredF` of a ForceBackup from checks that can be evaluated -/
+theorem coveredF_force_of {bk kk : Key} {hbk : PKey bk} {hkk : PKey kk} {hne1 : bk ≠ []} {hne2 : kk ≠ []}
+    {hd1 : ¬ bk <+: kk} {hd2 : ¬ kk <+: bk} {w0 w : World} {name : Path} {k : Key}
+    (hkey : forceKey name = k) (habs : isAbs name = true)
+    (h0 : notDir (w0.fs.get (bk ++ k)) = true) (h1 : notDir (w.fs.get (bk ++ k)) = true)
+    (hkne : k ≠ []) (hp : isDirB (w0.fs.get (bk ++ k.dropLast)) = true)
+    (hok : isOkUnit (Op.exec (osCfg bk kk) (.force name) w).2 = true) :
+    Op.CoveredF (osCfg bk kk) (osSim bk kk hbk hkk hne1 hne2 hd1 hd2) (osView bk kk .base w0.fs) w
+      (.force name) := by
+  show _ ∧ _ ∧ _ ∧ _ ∧ _
+  rw [hkey]
+  refine ⟨habs, ?_, ?_, ⟨hkne, ?_⟩, isOkUnit_eq hok⟩
+  · intro h; obtain ⟨mt, hmt⟩ := osView_isDirAt_of h; exact notDir_spec h0 mt hmt
+  · intro h; obtain ⟨mt, hmt⟩ := osView_isDirAt_of h; exact notDir_spec h1 mt hmt
+  · obtain ⟨mt, hmt⟩ := isDirB_spec hp; exact osView_isDirAt_mk (s := .base) hmt
+
+/-- a history with three ForceBackups, two of them of the same path, the third of a path that does
+not exist: every hypothesis of `forceBackup_rebaselines_many_linkfree_partial` holds -/
+example :
+    let cfg := osCfg [['b']] [['k']]
+    let w : World := { fs := exDisk }
+    OSGood [['b']] [['k']] w.fs ∧ w.infos = [] ∧ w.faults = [] ∧
+    CoveredHistF cfg osSim_example (osView [['b']] [['k']] .base w.fs) w
+      [.write "/f".toList (O_WRONLY ||| O_TRUNC) 0 "y", .force "/f".toList,
+       .write "/f".toList (O_WRONLY ||| O_TRUNC) 0 "z", .force "//f/".toList, .remove "/f".toList,
+       .force "/n".toList, .creat "/n".toList "q"] := by
+  refine ⟨osGood_example, rfl, rfl, ?_, ?_, ?_, ?_, ?_, ?_, ?_, trivial⟩
+  · show isAbs _ = true; decide
+  · exact coveredF_force_of (k := [['f']]) (by decide) (by decide) (by decide +kernel) (by decide +kernel)
+      (by decide) (by decide +kernel) (by decide +kernel)
+  · show isAbs _ = true; decide
+  · exact coveredF_force_of (k := [['f']]) (by decide) (by decide) (by decide +kernel) (by decide +kernel)
+      (by decide) (by decide +kernel) (by decide +kernel)
+  · show isAbs _ = true ∧ clean _ ≠ rootP; decide
+  · exact coveredF_force_of (k := [['n']]) (by decide) (by decide) (by decide +kernel) (by decide +kernel)
+      (by decide) (by decide +kernel) (by decide +kernel)
   · show isAbs _ = true; decide
 
 end Props.C17
